@@ -222,6 +222,56 @@ func accessFacts(s *src, f *facts) {
 			}
 		}
 	}
+	// mutexes must be shared by every user: pointer field, or value field of a struct that is only used through pointers
+	shared := true
+	why := ""
+	ptrRecvOnly := func(typ string) bool {
+		ok := true
+		for _, file := range s.files {
+			for _, d := range file.Decls {
+				fd, isF := d.(*ast.FuncDecl)
+				if !isF || fd.Recv == nil || len(fd.Recv.List) != 1 || recvBase(fd.Recv.List[0].Type) != typ {
+					continue
+				}
+				if _, isPtr := fd.Recv.List[0].Type.(*ast.StarExpr); !isPtr {
+					ok = false
+				}
+			}
+		}
+		return ok
+	}
+	for _, tn := range []string{"Broadcaster", "closureManager", "Registry"} {
+		st := s.structDecl(tn)
+		if st == nil {
+			continue
+		}
+		for _, fl := range st.Fields.List {
+			t := s.str(fl.Type)
+			if !strings.Contains(t, "sync.Mutex") && !strings.Contains(t, "sync.RWMutex") {
+				continue
+			}
+			if strings.HasPrefix(t, "*") {
+				continue
+			}
+			// value mutex: fine only if no method copies the struct
+			if !ptrRecvOnly(tn) {
+				shared = false
+				why = tn + " has a value mutex and value-receiver methods"
+			}
+		}
+	}
+	// closureManager is stored by pointer in wrappedChild
+	if wc := s.structDecl("wrappedChild"); wc != nil {
+		for _, fl := range wc.Fields.List {
+			for _, n := range fl.Names {
+				if n.Name == "wrapper" && !strings.HasPrefix(s.str(fl.Type), "*") {
+					shared = false
+					why = "wrappedChild.wrapper is held by value"
+				}
+			}
+		}
+	}
+	f.b("locksShared", shared, why)
 	sort.Slice(out, func(i, j int) bool {
 		if out[i].v != out[j].v {
 			return out[i].v < out[j].v
